@@ -416,3 +416,17 @@ class C19(Prop):
                 return "value %s, model %s" % (g, m)
             return None
         return None if m == g else "value %r, model %r" % (g, m)
+
+    # ---- E3: coverage-guided fuzzing of operation histories (libFuzzer targets with an in-target model, harness/fuzz_utl.cpp) ----
+    engines = ["hypothesis+sanitized-cpp-server", "libFuzzer (E3, harness/fuzz_utl.cpp)"]
+
+    def extra_phases(self, ctx):
+        from .. import fuzz
+        fails = []
+        for t in ("c19_vector", "c19_static_vector", "c19_small_vector"):
+            fails += fuzz.fuzz_phase(self, t, dict(ctx, fuzz_scale=0.5, fuzz_jobs=4))
+        return fails
+
+    def replay_external(self, case):
+        from .. import fuzz
+        return fuzz.replay(case["fuzz"], case) if case.get("fuzz") else []
